@@ -19,7 +19,7 @@ import (
 // key, plain window, JOIN, JOIN + window) and a second query B (cfg sql2 / q2 …).  Ops:
 //   emitsync <row>                 EmitSync on A's instance (direct kinds)          obs: after <row>
 //   emitall <L rows>               Emit every row, wait for quiescence              obs: after <L rows>, sinkrows <t|f>
-//   paired <L rowsA> <L rowsB> <bits>   A and B alone (cold caches) vs interleaved by <bits> obs: pairedA <t|f>, pairedB <t|f>
+//   paired <L rowsA> <L rowsB> <bits> <cold|warm>   A and B alone (cold caches) vs interleaved by <bits>   obs: pairedA <t|f>, pairedB <t|f>
 // `after` is the caller's map re-read after the call (deep, canonical).  Quiescence: direct kinds wait for as
 // many sink deliveries as a twin instance returned non-nil EmitSync results for copies of the same rows;
 // window kinds append sentinel rows of their own group and wait for the sentinel's batch (single FIFO
@@ -256,7 +256,9 @@ func (c20) Gen(rng *rand.Rand, tier string, idx int) Case {
 	}
 	op := append([]string{"paired"}, c20RowsTok(ra)...)
 	op = append(op, c20RowsTok(rb)...)
-	c.Ops = append(c.Ops, append(op, string(bits)))
+	temp := []string{"cold", "warm"}[rng.Intn(2)] // paired run on empty caches, or on the caches the solo runs left behind
+	c.Stat = append(c.Stat, "paired-"+temp)
+	c.Ops = append(c.Ops, append(op, string(bits), temp))
 	return c
 }
 
@@ -332,7 +334,7 @@ func (in *c20Inst) sawSentinel() bool {
 }
 
 func c20WaitFor(cond func() bool) bool {
-	deadline := time.Now().Add(3 * time.Second)
+	deadline := time.Now().Add(5 * time.Second)
 	for !cond() {
 		if time.Now().After(deadline) {
 			return false
@@ -495,7 +497,9 @@ func (c20) Exec(c Case) [][][]string {
 			bits := rest[0]
 			soloA, okA := c20RunSolo(qa, ra)
 			soloB, okB := c20RunSolo(qb, rb)
-			functions.VerifResetExprCaches()
+			if len(rest) < 2 || rest[1] != "warm" {
+				functions.VerifResetExprCaches()
+			}
 			ia, ib := c20New(qa), c20New(qb)
 			ai, bi := 0, 0
 			for _, w := range []byte(bits) {
